@@ -134,13 +134,24 @@ class _VersionMatch(GenericEquality, restriction.base):
                 or self.rev != other.rev
             ):
                 return False
+            # a negated '~' has no equivalent operator set; compare it directly
+            if self.droprev and self.negate != other.negate:
+                return False
             return self._convert_ops(self) == self._convert_ops(other)
 
         return False
 
     # TODO: cached_hash?
     def __hash__(self):
-        return hash((self.droprev, self.ver, self.rev, self.negate, self.vals))
+        return hash(
+            (
+                self.droprev,
+                self.ver,
+                self.rev,
+                self.droprev and self.negate,
+                self._convert_ops(self),
+            )
+        )
 
 
 class VersionMatch(packages.PackageRestriction):
@@ -216,6 +227,7 @@ class StaticUseDep(packages.PackageRestriction):
 # Which makes no sense; trace and fix.
 class _UseDepDefaultContainment(values.ContainmentMatch, caching=False):
     __slots__ = ("if_missing",)
+    __attr_comparison__ = ("vals", "all", "negate", "if_missing")
 
     def __init__(self, if_missing: bool, vals, negate=False):
         self.if_missing = bool(if_missing)
